@@ -129,8 +129,8 @@ def check(rng, deep):
                 if abs(ss[t] - want) > (1e-7 if solver == 'hybr' else 2e-11):          # the requested tolerance (default ttol = 1e-12) must reach the bundled solvers
                     C.push(out, dict(what=f'a requested target is not hit to the solver tolerance ({t})', input=inp, observed=float(ss[t]), expected=float(want), signature=dict(op='target', solver=solver)))
             re = flat.steady_state({k: ss[k] for k in flat.inputs})
-            if max(abs(re[k] - ss[k]) for k in re.toplevel) > 1e-10:
-                C.push(out, dict(what='re-evaluating the model at the solved steady state does not reproduce it', input=inp, signature=dict(op='reevaluation', solver=solver)))
+            if any(re[k] != ss[k] for k in re.toplevel):          # simple blocks only: re-evaluation at identical inputs is bit-exact
+                C.push(out, dict(what='re-evaluating the model at the solved steady state does not reproduce it', input=inp, observed=float(max(abs(re[k] - ss[k]) for k in re.toplevel)), signature=dict(op='reevaluation', solver=solver)))
             for k, v in unknowns.items():
                 if isinstance(v, tuple) and not (v[0] <= ss[k] <= v[-1]):
                     C.push(out, dict(what='solution lies outside the supplied bounds', input=inp, signature=dict(op='bounds', solver=solver)))
@@ -143,6 +143,24 @@ def check(rng, deep):
     n += 1
     if abs(ss['res_p']) > 1e-9 or not (-2 <= ss['p'] <= 2):
         C.push(out, dict(what='brentq steady state misses the target or leaves the bracket', input=dict(kind='model-ss', solver='brentq'), signature=dict(op='target', solver='brentq')))
+    # scalar solvers at tight and loose tolerances: whatever is returned must be ONE consistent evaluation of the model (every reported variable is the model's value at the reported unknown)
+    for solver in ('brentq', 'brenth', 'ridder', 'bisect', 'toms748'):
+        for ttol in (1e-12, 1e-4):
+            for kfix in (3.0, 0.8 + 2.0 * rng.random()):
+                n += 1
+                inp = dict(kind='model-ss', solver=solver, ttol=ttol, k=kfix, unknowns={'p': [-2.0, 2.0]}, targets={'res_p': 0.0})
+                try:
+                    ss = flat.solve_steady_state(dict(mm.CALIB, k=kfix), {'p': (-2.0, 2.0)}, {'res_p': 0.0}, solver=solver, ttol=ttol)
+                except Exception as ex:
+                    C.push(out, dict(what=f'solve_steady_state raised {type(ex).__name__}: {ex}', input=inp, signature=dict(op='solve-raise', solver=solver)))
+                    continue
+                re = flat.steady_state({k: ss[k] for k in flat.inputs})
+                if any(re[k] != ss[k] for k in re.toplevel):
+                    bad = [k for k in re.toplevel if re[k] != ss[k]]
+                    C.push(out, dict(what='the steady state returned by a bracketing solver is not a single evaluation of the model: re-evaluating at the reported unknown gives other values', input=inp,
+                                     observed={k: [float(ss[k]), float(re[k])] for k in bad[:3]}, signature=dict(op='reevaluation', solver=solver)))
+                if not (-2 <= ss['p'] <= 2):
+                    C.push(out, dict(what='scalar steady-state solution leaves the bracket', input=inp, signature=dict(op='bounds', solver=solver)))
     return out, n
 
 
